@@ -41,7 +41,7 @@ def run(chk, repo):
     chk.doc("R15.6", "creation window of the lock file")
     lock_graph(chk, repo)
     counter(chk, repo)
-    section(chk, repo)
+    section_all(chk, repo)
     inprocess(chk, repo)
     creation(chk, repo)
     counter_use(chk, repo)
@@ -400,6 +400,192 @@ def section(chk, repo):
         "self.no = no - self.lock_file.minimum", init, mode="stmt"))
     chk.ob("R15.4", ci.qualname + ".__init__", "one byte per terminal "
            "address", ok, init or ci.node, "offset = address - minimum")
+
+
+def section_all(chk, repo):
+    if section_exec(chk, repo):
+        try:
+            section(chk, repo)      # the same, statement by statement
+        except AnalysisError as e:
+            chk.notes.append(f"R15.4: statement-level rules skipped, the "
+                             f"class was decided by abstract execution "
+                             f"({e})")
+    else:
+        section(chk, repo)
+
+
+class _LockFileModel:
+    """the lock file as the kernel sees it: its bytes, the byte ranges this
+    process holds (POSIX record locks are per process: unlocking a range
+    drops it whoever of the process's tasks took it) and the ranges another
+    process holds for the first `busy` attempts"""
+
+    def __init__(self, content, foreign=(), busy=0):
+        self.data = bytearray(content)
+        self.held = set()
+        self.foreign, self.busy = set(foreign), busy
+        self.log = []
+        self.slept = 0
+
+    def _range(self, length, start):
+        return set(range(start, len(self.data) if not length
+                         else start + length))
+
+    def lockf(self, fd, flags, length=0, start=0, whence=0):
+        rng = self._range(length, start)
+        self.log.append(("lockf", flags, length, start))
+        if flags & 8:                       # LOCK_UN
+            self.held -= rng
+            return None
+        if rng & self.foreign and self.busy > 0:
+            self.busy -= 1
+            if flags & 4:                   # LOCK_NB
+                raise Raised("OSError: [Errno 11] temporarily unavailable")
+            raise Budget("blocks in lockf while another process holds the "
+                         "byte: the event loop of this process stands still")
+        self.held |= rng
+        return None
+
+    def pread(self, fd, n, off):
+        self.log.append(("pread", n, off, frozenset(self.held)))
+        return bytes(self.data[off:off + n])
+
+    def pwrite(self, fd, data, off):
+        self.log.append(("pwrite", bytes(data), off, frozenset(self.held)))
+        self.data[off:off + len(data)] = data
+        return len(data)
+
+    def funcs(self):
+        def sleep(*a):
+            self.slept += 1
+        return {"fcntl": Obj(None, {
+                    "lockf": ("hook", self.lockf), "LOCK_EX": 2,
+                    "LOCK_NB": 4, "LOCK_UN": 8, "LOCK_SH": 1}),
+                "os": Obj(None, {"pread": ("hook", self.pread),
+                                 "pwrite": ("hook", self.pwrite)}),
+                "sleep": ("hook", sleep)}
+
+
+def section_exec(chk, repo):
+    """ParallelMailboxLock by abstract execution against a model of the
+    lock file: which byte is locked, read, written back and released, for
+    one lock, for two locks of one process whose exchanges overlap, under
+    contention, and for a lock that travelled to another process.  False
+    when the class cannot be evaluated."""
+    ci = repo.cls(L + "ParallelMailboxLock")
+    lf = repo.cls(L + "LockFile")
+    en, ex = ci.methods.get("__aenter__"), ci.methods.get("__aexit__")
+    if en is None or ex is None:
+        return False
+    bad = []
+    runs = 0
+
+    def mk(model, station):
+        ev = Evaluator(repo, ci.module, ci, funcs=model.funcs())
+        lockfile = Obj(lf, {"fd": 9, "minimum": 1000, "maximum": 1064,
+                            "filename": "/run/x/mbx"})
+        return ev, ev.construct(ci, [lockfile, station], {})
+    try:
+        for station in (1000, 1003, 1063):
+            off = station - 1000
+            for busy in (0, 2):
+                runs += 1
+                content = bytes((i * 3 + 1) % 8 for i in range(64))
+                m = _LockFileModel(content, foreign={off}, busy=busy)
+                ev, lk = mk(m, station)
+                tag = f"terminal {station}" + (
+                    f", byte held by another process for {busy} attempts"
+                    if busy else "")
+                ev.call_function(en, [lk], cls=ci)
+                if m.held != {off}:
+                    bad.append(f"{tag}: after entering, bytes "
+                               f"{sorted(m.held)} are locked, expected "
+                               f"[{off}]")
+                    continue
+                if busy and m.slept < busy:
+                    bad.append(f"{tag}: retries without yielding to the "
+                               f"event loop")
+                    continue
+                pr = [e for e in m.log if e[0] == "pread"]
+                if len(pr) != 1 or pr[0][1:3] != (1, off) or off not in \
+                        pr[0][3]:
+                    bad.append(f"{tag}: counter read {pr}, expected one "
+                               f"byte at {off} under the lock")
+                    continue
+                first = ev.call(ev.getattr(lk, "next_counter"), [])
+                if first != content[off]:
+                    bad.append(f"{tag}: first counter {first!r}, the file "
+                               f"says {content[off]}")
+                    continue
+                nxt = ev.getattr(lk, "counter")
+                ev.call_function(ex, [lk, None, None, None], cls=ci)
+                pw = [e for e in m.log if e[0] == "pwrite"]
+                if len(pw) != 1 or pw[0][1:3] != (bytes((nxt,)), off) or \
+                        off not in pw[0][3]:
+                    bad.append(f"{tag}: write-back {pw}, expected "
+                               f"{bytes((nxt,))!r} at {off} under the lock")
+                elif m.held:
+                    bad.append(f"{tag}: bytes {sorted(m.held)} still locked "
+                               f"after leaving")
+        # two terminals of one process, exchanges overlapping both ways
+        for a, b in ((1003, 1007), (1007, 1003), (1000, 1063)):
+            runs += 1
+            m = _LockFileModel(bytes(64))
+            ev, la = mk(m, a)
+            lb = ev.construct(ci, [ev.getattr(la, "lock_file"), b], {})
+            ev.call_function(en, [la], cls=ci)
+            ev.call_function(en, [lb], cls=ci)
+            ev.call_function(ex, [lb, None, None, None], cls=ci)
+            if m.held != {a - 1000}:
+                bad.append(f"terminals {a} and {b} of one process: leaving "
+                           f"{b}'s exchange leaves bytes {sorted(m.held)} "
+                           f"locked, expected [{a - 1000}] - {a}'s exchange "
+                           f"is still in flight and another process can "
+                           f"enter it now")
+            ev.call_function(ex, [la, None, None, None], cls=ci)
+        # a lock that was sent to another process
+        for station in (1005, 1063):
+            runs += 1
+            m = _LockFileModel(bytes(64))
+            ev, lk = mk(m, station)
+            red = None
+            for nm in ("__reduce_ex__", "__reduce__"):
+                if repo.lookup(ci, nm)[1] is not None:
+                    red = ev.call(ev.getattr(lk, nm), [4] if nm.endswith(
+                        "ex__") else [])
+                    break
+            if red is None:
+                continue
+            if not isinstance(red, tuple) or len(red) < 2:
+                raise Unknown("__reduce__ result")
+            copy = ev.call(red[0], list(red[1]))
+            if len(red) > 2 and red[2] is not None:
+                st = repo.lookup(ci, "__setstate__")[1]
+                if st is not None:
+                    ev.call(ev.getattr(copy, "__setstate__"), [red[2]])
+                elif isinstance(red[2], dict):
+                    copy.fields.update(red[2])
+            if ev.getattr(copy, "no") != ev.getattr(lk, "no"):
+                bad.append(f"terminal {station}: the copy of the lock that "
+                           f"arrives in another process uses byte "
+                           f"{ev.getattr(copy, 'no')}, the original byte "
+                           f"{ev.getattr(lk, 'no')}")
+    except Budget as e:
+        bad.append(f"does not end: {e}")
+    except Unknown:
+        return False
+    except Raised as e:
+        bad.append(f"raises {e.what[:60]}")
+    chk.ob("R15.4", ci.qualname, f"the lock of a terminal is one byte of "
+           f"the lock file at the terminal's offset: locked (yielding to "
+           f"the event loop while it is taken), the counter read and "
+           f"written back under it, exactly that byte released - also with "
+           f"a second exchange of the same process in flight and for a "
+           f"lock sent to another process ({runs} runs against a model of "
+           f"the lock file, by abstract execution)", not bad, en,
+           "; ".join(bad[:2]) or "lockf(fd, LOCK_EX | LOCK_NB, 1, no) ... "
+           "pread ... pwrite, lockf(fd, LOCK_UN, 1, no)")
+    return True
 
 
 def inprocess(chk, repo):
